@@ -741,8 +741,11 @@ class Plucker(SMUserList):
         else:
             # lines are skew or intersecting
             w = np.cross(l1.w, l2.w)
-            v = np.cross(l1.v, l2.w) - np.cross(l2.v, l1.w) + \
-                (l1 * l2) * np.dot(l1.w, l2.w) * base.unitvec(np.cross(l1.w, l2.w))
+            # the perpendicular passes through the point of l1 that is closest to l2
+            n = np.cross(l1.uw, l2.uw)
+            t1 = np.dot(np.cross(l2.pp - l1.pp, l2.uw), n) / np.dot(n, n)
+            foot = l1.pp + t1 * l1.uw
+            v = np.cross(w, foot)
             
         return Plucker(v, w)
 
